@@ -1,6 +1,6 @@
 """property id -> units and reporting metadata (single source for MANIFEST.json)"""
 from units import (augment, specificity, best, fragments, static_list, hashing, vptrs, resolve, generator, handlers,
-                   virtual_ptr, deferred, slots, install, best_proof, codec, tables, methods)
+                   virtual_ptr, deferred, slots, install, best_proof, codec, tables, methods, phases)
 
 A_TABLES = ('compiler::build_dispatch_tables / build_dispatch_table (grouping of classes by applicability mask, stride products, recursion order, '
             'v-table entry filling) are checked BOUNDED only (units/tables: concrete registries of <= 4 classes, one method of arity <= 3, <= 4 definitions, run together '
@@ -26,7 +26,7 @@ T_SHAPES = ('partial evaluator instantiating the resolve / handler templates per
 
 PROPS = {
     'C01': {
-        'units': [specificity.jobs, best.jobs, best_proof.jobs, fragments.jobs, tables.jobs, hashing.jobs, vptrs.jobs, resolve.jobs, slots.jobs, install.jobs],
+        'units': [specificity.jobs, best.jobs, best_proof.jobs, fragments.jobs, tables.jobs, hashing.jobs, vptrs.jobs, resolve.jobs, slots.jobs, install.jobs, phases.jobs],
         'level': 'proof',
         'technique': 'CBMC/DFCC function + loop contracts on extracted is_more_specific; ' + T_SHAPES +
                      ' for method::resolve*; contracts on the v-table pointer lookups; loop-boundary decomposition proof of best(); bounded CBMC on the cell step, install_gv and slot allocation',
@@ -119,7 +119,7 @@ PROPS = {
         'assumptions': [],
     },
     'C07': {
-        'units': [static_list.jobs, hashing.jobs, vptrs.jobs, deferred.jobs, install.jobs],
+        'units': [static_list.jobs, hashing.jobs, vptrs.jobs, deferred.jobs, install.jobs, phases.jobs],
         'level': 'proof',
         'technique': 'Skolem-heap contracts on the registration lists, hash / vptr obligations proved from arbitrary prior values of every surviving static, '
                      'bounded CBMC on deferred-id resolution over repeated updates',
